@@ -39,7 +39,9 @@ func checkC05(c *Ctx) {
 	if c.Tier == "thorough" {
 		cfg = "FamControl_thorough.cfg"
 	}
-	c.runSemFamily("FamControl", cfg, o, 40*time.Minute)
+	if c.runSemFamily("FamControl", cfg, o, 40*time.Minute) != nil {
+		c.traceValidate("control", c.lastFile, 3, 1200)
+	}
 	c.cov("exhaustive", true)
 	c.cov("rule", "every control skeleton of FamControl up to the nesting depth of the cfg (if/if-else over conditions of every truthiness kind, while, the 8 for shapes, blocks, break, continue, stray signals); one TLC initial state per program, each run to its terminal state by the abstract machine and replayed; non-trivial = prints something or fails")
 	semAssumptions(c)
@@ -88,7 +90,9 @@ func checkC03(c *Ctx) {
 	if c.Tier == "thorough" {
 		cfg = "FamScope_thorough.cfg"
 	}
-	c.runSemFamily("FamScope", cfg, o, 60*time.Minute)
+	if c.runSemFamily("FamScope", cfg, o, 60*time.Minute) != nil {
+		c.traceValidate("scope", c.lastFile, 7, 1500)
+	}
 	c.cov("exhaustive", true)
 	c.cov("rule", "FamScope: every history of total size Budget (declare / declare without initialiser / assign / read over the colliding names a and b, nested blocks, one-iteration for (declaring a colliding name) and while, a function declaration with such a body, calls) that is inside the property's domain, plus NRandom seeded random longer histories; each site stores its own line number, each read prints; non-trivial = prints or fails")
 	semAssumptions(c)
@@ -144,7 +148,9 @@ func checkC11(c *Ctx) {
 	if c.Tier == "thorough" {
 		cfg = "FamArrays_thorough.cfg"
 	}
-	c.runSemFamily("FamArrays", cfg, o, 60*time.Minute)
+	if c.runSemFamily("FamArrays", cfg, o, 60*time.Minute) != nil {
+		c.traceValidate("arrays", c.lastFile, 4, 1200)
+	}
 	c.cov("exhaustive", true)
 	c.cov("rule", "FamArrays: every history of <= HistLen well-indexed array operations on two variables with shared ancestry (new, alias, nest, write first/last, len in arithmetic, push 1/2 values into either variable, remove first/last into either variable, write through a parameter, read), each optionally followed by one bad-index operation (out of range, negative, fractional, string, nil, boolean, huge, array as index, non-array targets), plus NRandom seeded random histories of RandLen operations; both variables are printed after every step")
 	semAssumptions(c)
